@@ -538,6 +538,14 @@ pub fn tx_monitors(h: &Hist, ms: &mut MonState, b: &Obs, line: &str, res: &str, 
                 }
             }
         }
+        // C11: an expansion adds exactly the attached amount and extends the end by amount / emission rate epochs
+        if ok && tx.kind == "expandfarm" {
+            if let (Some(f), Some(g)) = (b.farms.iter().find(|f| f.identifier == tx.args[5]), a.farms.iter().find(|f| f.identifier == tx.args[5])) {
+                let attached: u128 = tx.args[4].parse().unwrap_or(0);
+                out.push(format!("mon_farm_expand {} {} {} {} {} {} {}", f.emission_rate, attached, f.preliminary_end_epoch, g.preliminary_end_epoch,
+                    f.farm_asset.amount, g.farm_asset.amount, (f.emission_rate == g.emission_rate && f.start_epoch == g.start_epoch && f.owner == g.owner) as u8));
+            }
+        }
         // C11 / C20: farms closed by this transaction (explicitly, or automatically by a farm creation): every
         // owner receives the unclaimed remainders; with one injected bank failure at most one refund is lost
         if ok && matches!(tx.kind.as_str(), "closefarm" | "createfarm") {
